@@ -2,4 +2,5 @@ SPECIFICATION Spec
 INVARIANT NoPollution
 INVARIANT TimeoutReported
 INVARIANT ExecuteReturns
+INVARIANT NoReexecutionAfterTimeout
 INVARIANT ConformTimeoutFlag
